@@ -180,3 +180,41 @@ Fixpoint conds (d : db) (l : list pchange) : Prop :=
         match pc_cmd pc with SCreateTable x _ => droppable dm (t_name (x_t x)) = true | _ => True end /\
         conds dm l'
   end.
+
+(** ** static conditions for the drop-index arms
+
+    [touches pc n]: the statement of [pc] creates or drops an index called [n].
+    [fresh_drops l]: no DROP INDEX n of the list comes after a change that touches [n] -- what every
+    change list of the differ satisfies (a modified index is DropIndex n then AddIndex n; an index
+    is dropped once).  Decidable on the plan. *)
+Definition touches (pc : pchange) (n : str) : bool :=
+  match pc_cmd pc with
+  | SDropIndex m => str_eqb m n
+  | SCreateIndex _ i => str_eqb (i_name i) n
+  | _ => false
+  end.
+
+Fixpoint fresh_drops (l : list pchange) : bool :=
+  match l with
+  | [] => true
+  | pc :: l' =>
+      forallb (fun pc2 => match drop_index_arm pc2 with
+                          | Some (n, _, _) => negb (touches pc n)
+                          | None => true
+                          end) l'
+      && fresh_drops l'
+  end.
+
+(** every DROP INDEX arm of the list is faithful in state [d] (the state the plan starts from) *)
+Definition drops_faithful (d : db) (l : list pchange) : Prop :=
+  forall pc n t i, In pc l -> drop_index_arm pc = Some (n, t, i) -> faithful_idx d n t i.
+
+(** what the planner's view [from] of the current schema has to satisfy in the start state [d]:
+    every index of [from] that a DropIndex change can name is re-created faithfully.  It is what
+    [from = inspect d] provides for the explicit indexes of [d] (not for the automatic index of an
+    inline UNIQUE, which [normalize_idx_name] renames: the known finding). *)
+Definition from_ok (d : db) (from : xschema) : Prop :=
+  forall t xf m k i tt i',
+    find_xtable t from = Some xf -> find_idx m (t_idx (x_t xf)) = Some (k, i) ->
+    t_name tt = t -> normalize_idx_name i tt = Some i' ->
+    faithful_idx d (i_name i') t i'.
